@@ -205,8 +205,8 @@ def run(ctx):
     rng = ctx.rng
     gen = Gen(rng)
 
-    ncase_seq, ngeo, norders = (8, 5, 6) if quick else (16, 8, 8)
-    ncase_mt, nmt, repeat = (4, 6, 2) if quick else (6, 8, 20)
+    ncase_seq, ngeo, norders = (12, 6, 6) if quick else (16, 8, 8)
+    ncase_mt, nmt, repeat = (6, 6, 3) if quick else (6, 8, 20)
 
     jobs = {}     # (group, flavor) -> list of (id, line)
     meta = {}
